@@ -706,7 +706,7 @@ pub(crate) fn run(
                     }
                 }
                 Insn::ContinueFromPreviousMatchEnd => {
-                    if ix > pos || option_flags & OPTION_SKIPPED_EMPTY_MATCH != 0 {
+                    if ix != pos || option_flags & OPTION_SKIPPED_EMPTY_MATCH != 0 {
                         break 'fail;
                     }
                 }
